@@ -60,4 +60,58 @@ Definition s_cubic_solve (a_ : (T CA)) (b_ : (T CA)) (c_ : (T CA)) (d_ : (T CA))
        let* q14 := div (neg (add (add b_ (mul u2_ k_)) q13)) (kmulr RA a_ (rlit RA 3)) in
        upd roots_ 2 q14).
 
+(* src/polynomial/mod.rs : impl Polynomial < Cmplx > :: fn laguer *)
+Definition s_laguer (a_ : (list (T CA))) (x_ : (T CA)) (iterations_ : nat) : res ((list (T CA)) * (T CA) * nat) :=
+  let* m_ := usub (length a_) 1 in
+  let* o14 := for_ret 1 ((10 * 8)%nat) (fun iter_ (s13 : ((T CA) * nat)) =>
+          let '(x_, iterations_) := s13 in
+          let iterations_ := iter_ in
+          let* b_ := rd a_ m_ in
+          let err_ := (kabs RA b_) in
+          let d_ := (@zero CA) in
+          let f_ := (@zero CA) in
+          let abx_ := (kabs RA x_) in
+          let* (b_, err_, d_, f_) := for_rev 0 m_ (fun j_ (s4 : ((T CA) * (T A) * (T CA) * (T CA))) =>
+                  let '(b_, err_, d_, f_) := s4 in
+                  let f_ := (add (mul x_ f_) d_) in
+                  let d_ := (add (mul x_ d_) b_) in
+                  let* x3 := rd a_ j_ in
+                  let b_ := (add (mul x_ b_) x3) in
+                  let err_ := (add (kabs RA b_) (mul abx_ err_)) in
+                  Ok (b_, err_, d_, f_)) (b_, err_, d_, f_) in
+          let err_ := (mul err_ ((reps RA))) in
+          if (leb (kabs RA b_) err_)
+          then (Ok (inr (a_, x_, iterations_)))
+          else (let* g_ := div d_ b_ in
+               let g2_ := (mul g_ g_) in
+               let* q6 := div f_ b_ in
+               let h_ := (sub g2_ (kmulr RA q6 (rlit RA 2))) in
+               let* d7 := usub m_ 1 in
+               let* sq_ := osqrt RA (kmulr RA (sub (kmulr RA h_ (of_nat m_)) g2_) (of_nat d7)) in
+               let gp_ := (add g_ sq_) in
+               let gm_ := (sub g_ sq_) in
+               let abp_ := (kabs RA gp_) in
+               let abm_ := (kabs RA gm_) in
+               let* gp_ := if (ltb abp_ abm_)
+                   then (let gp_ := gm_ in
+                        Ok gp_)
+                   else (Ok gp_) in
+               let* dx_ := if (gtb (rmax RA abp_ abm_) (@zero A))
+                   then (div (mkk RA (of_nat m_) (@zero A)) gp_)
+                   else opolar RA (add (@one A) abx_) (of_nat iter_) in
+               let x1_ := (sub x_ dx_) in
+               if (eqb x_ x1_)
+               then (Ok (inr (a_, x_, iterations_)))
+               else (let* x_ := if (negb ((Nat.modulo iter_ 10) =? 0)%nat)
+                        then (let x_ := x1_ in
+                             Ok x_)
+                        else (let* x12 := rd (rfrac RA) (Nat.div iter_ 10) in
+                             let x_ := (sub x_ (kmulr RA dx_ x12)) in
+                             Ok x_) in
+                    Ok (inl (x_, iterations_))))) (x_, iterations_) in
+  match o14 with
+  | inl (x_, iterations_) => Ok (a_, x_, iterations_)
+  | inr r15 => Ok r15
+  end.
+
 End SrcRoots.
